@@ -194,8 +194,10 @@ Definition decode13 (s : st) (r : rec) (o : hsres) : st * outcome :=
                type byte), so a zero-length TLSInnerPlaintext of ANY type is refused (tls13Decode.c 330-345) *)
             if Z.eqb (r_inner r) 0 || r_empty r then fatal s c_SSL_ALERT_UNEXPECTED_MESSAGE else dispatch (r_inner r)
         | _ =>
-          if ed_skip s && Z.leb (ed_seen s + r_len r) (ed_max s) then (set_ed_seen s (ed_seen s + r_len r), Ignored)
-          else fatal (if ed_skip s then set_ed_seen s (ed_seen s + r_len r) else s) c_SSL_ALERT_BAD_RECORD_MAC
+          (* a record no longer than the AEAD tag cannot be protected early data: r_len < 0 marks it (rec.len <= tag length) *)
+          let skippable := ed_skip s && Z.leb 0 (r_len r) in
+          if skippable && Z.leb (ed_seen s + r_len r) (ed_max s) then (set_ed_seen s (ed_seen s + r_len r), Ignored)
+          else fatal (if skippable then set_ed_seen s (ed_seen s + r_len r) else s) c_SSL_ALERT_BAD_RECORD_MAC
         end
       else dispatch t
   end.
